@@ -422,12 +422,17 @@ where
 
 	let tx_entries = retrieve_txs(wallet, None, None, None, Some(&parent_key_id), true)?;
 
-	// Only select outputs that are actually involved in an outstanding transaction
+	// Only select outputs that are actually involved in an outstanding transaction,
+	// or that still await confirmation themselves: the kernel lookup can confirm a
+	// transaction (which stops being outstanding) before its outputs have been seen
+	// on chain
 	let unspents = match update_all {
 		false => unspents
 			.into_iter()
 			.filter(|x| match x.tx_log_entry.as_ref() {
-				Some(t) => tx_entries.iter().any(|te| te.id == *t),
+				Some(t) => {
+					x.status == OutputStatus::Unconfirmed || tx_entries.iter().any(|te| te.id == *t)
+				}
 				None => true,
 			})
 			.collect(),
